@@ -67,6 +67,36 @@ pub fn expect(arch: Arch, bytes: &[u8], pc: u64, sc: &Scalars) -> Option<Expect>
             Some(Expect { taken, target, fallthrough, what: format!("{} rs={:#x}", what, s) })
         }
         Arch::X86 | Arch::Amd64 => {
+            // loopne / loope / loop / j(e/r)cxz, with or without the address-size prefix that
+            // selects the narrower counter
+            let (pfx67, rest) = match bytes {
+                [0x67, rest @ ..] => (true, rest),
+                _ => (false, bytes),
+            };
+            if let [op @ 0xe0..=0xe3, d, ..] = rest {
+                let len = if pfx67 { 3u64 } else { 2 };
+                let fallthrough = pc.wrapping_add(len);
+                let mut target = fallthrough.wrapping_add(*d as i8 as i64 as u64);
+                if arch == Arch::X86 {
+                    target &= 0xffff_ffff;
+                }
+                let (name, bits) = match (arch, pfx67) {
+                    (Arch::Amd64, false) => ("rcx", 64u32),
+                    (Arch::Amd64, true) => ("rcx", 32),
+                    (_, false) => ("ecx", 32),
+                    (_, true) => ("ecx", 16),
+                };
+                let mask = if bits == 64 { u64::MAX } else { (1u64 << bits) - 1 };
+                let count = reg(sc, name)? & mask;
+                let after = count.wrapping_sub(1) & mask;
+                let (taken, what) = match op {
+                    0xe0 => (after != 0 && !flag(sc, "ZF")?, "loopne"),
+                    0xe1 => (after != 0 && flag(sc, "ZF")?, "loope"),
+                    0xe2 => (after != 0, "loop"),
+                    _ => (count == 0, "jcxz"),
+                };
+                return Some(Expect { taken, target, fallthrough, what: format!("{} with the {}-bit counter = {:#x}", what, bits, count) });
+            }
             let (cc, len, disp) = match bytes {
                 [op, d, ..] if (0x70..=0x7f).contains(op) => (op - 0x70, 2u64, *d as i8 as i64),
                 [0x0f, op, d0, d1, d2, d3, ..] if (0x80..=0x8f).contains(op) => (op - 0x80, 6u64, i32::from_le_bytes([*d0, *d1, *d2, *d3]) as i64),
